@@ -90,6 +90,7 @@ CHECKS = {
         "level_note": "Trusted: handshake handler (worker is parked in the handler or idle on an empty queue); progress is a bounded eventuality (20 s ceiling).",
         "parts": [
             {"part": "queue", "test": "TestQueueSet", "quick": {"checks": 3000, "shards": 8}, "thorough": {"checks": 100000, "shards": 16, "timeout": 3000}},
+            {"part": "readers", "test": "TestReaders", "quick": {"checks": 60, "shards": 4, "shrinktime": "20s"}, "thorough": {"checks": 2000, "shards": 8, "timeout": 3000}, "owned_schedule": False},
         ],
     },
     "C17": {
@@ -195,6 +196,17 @@ CHECKS = {
         "level_note": "Trusted: as C01; reference cache model in internal/ksched.",
         "parts": [
             {"part": "sched", "test": "TestSched", "quick": {"checks": 4000, "shards": 8}, "thorough": {"checks": 300000, "shards": 16, "timeout": 3000}},
+        ],
+    },
+    "C09": {
+        "pkg": "c09",
+        "engine": "e2e-opkit",
+        "aux_builds": [{"pkg": "./cmd/vhook", "out": "vhook"}],
+        "technique": "property-based testing (rapid): generated operator scenarios, every binding context file read back from the hook process and checked against a per-type shape table and an independent jq evaluation",
+        "level_text": "Random hook configurations and cluster histories through the full operator with real informers and hook processes; each binding context item the hooks received is checked against the documented contract. Search, not proof.",
+        "level_note": "Trusted: scripted hook copies the context file verbatim; gojq for the independent filter evaluation; fake cluster watch semantics.",
+        "parts": [
+            {"part": "e2e", "test": "TestContexts", "quick": {"checks": 400, "shards": 16, "shrinktime": "90s", "timeout": 900}, "thorough": {"checks": 6000, "shards": 16, "shrinktime": "180s", "timeout": 6000}, "owned_schedule": False},
         ],
     },
 }
